@@ -199,6 +199,7 @@ type Obligation struct {
 	Goal   string
 	Decls  []string // constant declarations
 	Cover  bool     // expected sat
+	PreFacts []string // cover-call: the facts before the call (an unsatisfiable path before the call is not a vacuity)
 	Result *SolveResult
 	// replay support
 	Inputs   []ReplayInput
@@ -317,6 +318,7 @@ type VC struct {
 	closures    map[string]*funcVal
 	litResults  map[*ast.FuncLit][]*types.Var
 	odSeen      map[string]bool // opaque-define symbols whose axiom is already among the base facts
+	callCovered map[string]bool // callees whose contract consistency was probed in this function
 	usedLoops   map[int]bool
 	usedSpecs   map[string]bool
 	loopOrd     map[ast.Node]int
